@@ -132,3 +132,11 @@ Example single_fault_levels :
   pools (run (init 1 (Some [4]) [4]) single_fault) = [[1]; [-1]; []] /\
   pools (run (init 1 (Some [4]) [4]) (single_fault ++ [RunGb; RunGb; Step 0; Step 0])) = [[4]; [0]; []].
 Proof. vm_compute. auto. Qed.
+
+(** (A) the tie to /repo's current source: every function this property's models were transcribed from has, in the
+    tree this run is checking, the normalised source it had when the models were validated (hashes regenerated from
+    /repo into gen/Generated.v on every run; pins in gen/SourcePins.v).  A change to one of them invalidates the
+    transcription until it is re-validated. *)
+From UsimGen Require SourcePins Pin_C12.
+Theorem C12_modelled_source_unchanged : forallb SourcePins.pin_ok Pin_C12.pins = true.
+Proof. exact Pin_C12.src_unchanged. Qed.
